@@ -1,9 +1,9 @@
 package parsers
 
 import (
+	"strconv"
 	"strings"
 
-	"github.com/pip-services3-gox/pip-services3-commons-gox/convert"
 	"github.com/pip-services3-gox/pip-services3-expressions-gox/calculator/errors"
 	ctokenizers "github.com/pip-services3-gox/pip-services3-expressions-gox/calculator/tokenizers"
 	"github.com/pip-services3-gox/pip-services3-expressions-gox/tokenizers"
@@ -267,14 +267,26 @@ func (c *ExpressionParser) completeLexicalAnalysis() error {
 			}
 		case tokenizers.Integer:
 			{
+				// Decimal constants are parsed exactly; a constant that does not fit is an error
+				value, err := strconv.ParseInt(token.Value(), 10, 64)
+				if err != nil {
+					return errors.NewSyntaxError("", errors.ErrErrorAt,
+						"Integer constant "+token.Value()+" is out of range", token.Line(), token.Column())
+				}
 				tokenType = Constant
-				tokenValue = variants.VariantFromInteger(convert.IntegerConverter.ToInteger(token.Value()))
+				tokenValue = variants.VariantFromInteger(int(value))
 				break
 			}
 		case tokenizers.Float:
 			{
+				// The nearest float is taken directly from the text; a constant that does not fit is an error
+				value, err := strconv.ParseFloat(token.Value(), 32)
+				if err != nil {
+					return errors.NewSyntaxError("", errors.ErrErrorAt,
+						"Float constant "+token.Value()+" is out of range", token.Line(), token.Column())
+				}
 				tokenType = Constant
-				tokenValue = variants.VariantFromFloat(convert.FloatConverter.ToFloat(token.Value()))
+				tokenValue = variants.VariantFromFloat(float32(value))
 				break
 			}
 		case tokenizers.Quoted:
